@@ -303,6 +303,49 @@ pub proof fn theorem_c01_roundtrip(msg: StunMessage, c: DecoderContext)
         assert(h.subrange(8, 20) =~= msg.transaction_id.0@);
     }
 }
+// ---------------------------------------------------------------- C04 / C10: the text a receiver recomputes a MAC / CRC over is the
+// prefix the sender's post_encode saw (header length already covering the attribute)
+proof fn lemma_find_tlv_img(msg: StunMessage, j: int, k: int, n: int, t: int)
+    requires 0 <= j < k <= n <= msg.attributes@.len(), enc_ok(msg, n),
+        msg.attributes@[k - 1].spec_type() == t,
+        forall|i: int| j <= i < k - 1 ==> (#[trigger] msg.attributes@[i]).spec_type() != t,
+    ensures find_tlv(body_of(img(msg, n)), st(msg, j), t) == Some((st(msg, k - 1), st(msg, k))),
+    decreases k - j,
+{
+    lemma_tlv_at(msg, j + 1, n);
+    lemma_img_ge20(msg, j);
+    if j < k - 1 {
+        lemma_find_tlv_img(msg, j + 1, k, n, t);
+        assert(msg.attributes@[j].spec_type() != t);
+    }
+}
+// props: C04 C10
+pub proof fn theorem_input_text_is_senders_prefix(msg: StunMessage, k: int, n: int)
+    requires 1 <= k <= n, n == msg.attributes@.len(), enc_ok(msg, n), msg.method.0 <= 0x0FFF,
+        // attribute k is the first of its type
+        forall|i: int| 0 <= i < k - 1 ==> (#[trigger] msg.attributes@[i]).spec_type() != msg.attributes@[k - 1].spec_type(),
+    ensures ({
+        let a = msg.attributes@[k - 1];
+        let p = img(msg, k - 1);
+        let v = a.wire(p);
+        // what post_encode of attribute k was given as the encoded message (see tlv_step)
+        let seen = set_len(p, p.len() - 20 + 4 + v.len() + pad4(v.len() as int));
+        input_text(img(msg, n), a.spec_type() as int) == Some(seen)
+    }),
+{
+    let b = img(msg, n);
+    let a = msg.attributes@[k - 1];
+    let p = img(msg, k - 1);
+    lemma_len_field(msg, n);
+    lemma_img_ge20(msg, n);
+    lemma_header_ok_img(msg, n);
+    lemma_img0(msg);
+    lemma_find_tlv_img(msg, 0, k, n, a.spec_type() as int);
+    lemma_prefix(msg, k - 1, n);
+    lemma_img_grows(msg, k);
+    lemma_img_ge20(msg, k - 1);
+    lemma_set_len_idem(p, st(msg, n), st(msg, k));
+}
 proof fn vx_sentinel() ensures false {}
 } // verus!
 fn main() {}
